@@ -33,8 +33,8 @@ import (
 
 func init() {
 	register("C18", core.Spec{
-		Decides:    "structural clauses of C18 for lib/lowleveljpeg: (S) the Encoder's call-sequence typestate — every non-nil error leaving Reset/Add1/Add3/Add6/addN other than the nil-receiver and previously-returned-error sentinels is preceded on its path by hasReturnedError = true; AddN tests the receiver and the flag before touching any other field; numAddsRemaining is tested for zero before its only decrement and the EOI marker (after a 7-one-bit flush) is written exactly when the decremented count is zero; Reset succeeds only with width,height in [1,65535], a valid ColorType, validated or standard quantisation factors, the flag cleared and every non-scratch field re-initialised; the Write error is never dropped; pointer arguments are dereferenced only where known non-nil; (W) Add1/Add3/Add6 have the same decision structure modulo (ColorType value = array length) and whichComponents has length = ColorType value with pattern Y..Y Cb Cr; (T) the four huffmanBitWriters tables are exactly the canonical (Annex C) codes of the four tables in hardCodedDHTSegments under the entry encoding read from emitHuffman, the DHT segments are well-formed, cover every symbol the coder can ask for and reserve the all-ones code, zigzag is the anti-diagonal walk, bitCount is the bit length, gen.go's theHuffmanSpec equals the DHT payload; (H) for each valid ColorType the bytes Reset hands to Write parse as SOI DQT SOF0 DHT+ SOS with consistent length fields, existing table selectors that agree with the tables encodeBlock actually indexes, sampling factors that agree with whichComponents, MCUDimensions and the numAddsRemaining formula, no unwritten byte, and every store index / slice bound within len(buf); len(buf) also covers the table-derived worst case of one AddN call",
-		NotDecided: "entropy-coding correctness at value level: that encodeBlock/emitHuffmanRun/emitBits produce the right bits (category and adjusted-diff arithmetic, run lengths, byte stuffing, the bit accumulator), that div rounds to nearest, DCT accuracy, the quantisation tables' values, absence of allocation, and that the decoded image equals the input. The H.bound.mcu bound assumes (does not check) that encodeBlock emits at most one Huffman code plus its category bits per coefficient",
+		Decides:    "structural clauses of C18 for lib/lowleveljpeg: (S) the Encoder's call-sequence typestate — every non-nil error leaving Reset/Add1/Add3/Add6/addN other than the nil-receiver and previously-returned-error sentinels is preceded on its path by hasReturnedError = true; AddN tests the receiver and the flag before touching any other field; numAddsRemaining is tested for zero before its only decrement and the EOI marker (after a 7-one-bit flush) is written exactly when the decremented count is zero; Reset succeeds only with width,height in [1,65535], a valid ColorType, validated or standard quantisation factors, the flag cleared and every non-scratch field re-initialised; the Write error is never dropped; pointer arguments are dereferenced only where known non-nil; (W) Add1/Add3/Add6 have the same decision structure modulo (ColorType value = array length) and whichComponents has length = ColorType value with pattern Y..Y Cb Cr; (T) the four huffmanBitWriters tables are exactly the canonical (Annex C) codes of the four tables in hardCodedDHTSegments under the entry encoding read from emitHuffman, the DHT segments are well-formed, cover every symbol the coder can ask for and reserve the all-ones code, zigzag is the anti-diagonal walk, bitCount is the bit length, gen.go's theHuffmanSpec equals the DHT payload; (H) for each valid ColorType the bytes Reset hands to Write parse as SOI DQT SOF0 DHT+ SOS with consistent length fields, existing table selectors that agree with the tables encodeBlock actually indexes, sampling factors that agree with whichComponents, MCUDimensions and the numAddsRemaining formula, no unwritten byte, and every store index / slice bound within len(buf); len(buf) also covers the table-derived worst case of one AddN call; (R) the AC run-length coding of encodeBlock, by interval dataflow over go/cfg edges: emitHuffmanRun packs uint8((run << 4) | category) and every call gets run <= 15 on every path, each ZRL symbol 0xF0 is emitted with >= 16 zeroes pending and paired with exactly one `-= 16`, the counter moves only by ++ on a zero coefficient / -= 16 / = 0 and is reset after being emitted, EOB 0x00 is emitted iff a run is pending at the end, and the AC loop visits zig-zag positions 1..63 once each; (N.width) the integer types through which Reset computes and stores the MCU count hold 8192*8192",
+		NotDecided: "entropy-coding correctness at value level: that encodeBlock/emitHuffmanRun/emitBits produce the right bits (category and adjusted-diff arithmetic, byte stuffing, the bit accumulator; of the run lengths only the structural clauses R.* are decided), that div rounds to nearest, DCT accuracy, the quantisation tables' values, absence of allocation, and that the decoded image equals the input. The H.bound.mcu bound assumes (does not check) that encodeBlock emits at most one Huffman code plus its category bits per coefficient",
 		Assumptions: []string{
 			"go/types, go/cfg (x/tools v0.29.0) model Go control flow and constants faithfully",
 			"JPEG marker-segment layout and the canonical Huffman code construction are taken from ITU-T T.81 (Annex B.2, C.2), written out in this checker",
@@ -100,6 +100,9 @@ func runC18(c *core.Ctx) {
 	lap("typestate")
 	x.header()
 	lap("header")
+	x.runLength() // R.* (c18_run.go)
+	x.countWidth() // N.width (c18_run.go)
+	lap("runlength")
 }
 
 // ---------------------------------------------------------------------------
